@@ -39,7 +39,8 @@ theorem microStep_walkC_fwd (st : State) (t : Nat) (b : Bool) (a : Nat) (pp : PP
     ∃ c, (microStep st t b).1.sh.nodes = (stepPP st.cfg a c st.sh (st.th t).loc b pp).1.nodes ∧
       ((microStep st t b).1.th t).loc = (stepPP st.cfg a c st.sh (st.th t).loc b pp).2.1 ∧
       (((microStep st t b).1.th t).op.walkC? = some (a, (stepPP st.cfg a c st.sh (st.th t).loc b pp).2.2.1) ∨
-        (stepPP st.cfg a c st.sh (st.th t).loc b pp).2.2.1 = .done) := by
+        (stepPP st.cfg a c st.sh (st.th t).loc b pp).2.2.1 = .done) ∧
+      (microStep st t b).1.sh.head = (stepPP st.cfg a c st.sh (st.th t).loc b pp).1.head := by
   cases hop : (st.th t).op with
   | cinto c x p pp0 =>
     rw [hop] at h
@@ -48,8 +49,8 @@ theorem microStep_walkC_fwd (st : State) (t : Nat) (b : Bool) (a : Nat) (pp : PP
     refine ⟨c, ?_⟩
     simp only [microStep, hop]
     split
-    · rename_i s' l' evs heq; rw [heq]; exact ⟨rfl, by simp, Or.inr rfl⟩
-    · rename_i s' l' pp' evs hne heq; rw [heq]; exact ⟨rfl, by simp, Or.inl (by simp [OpSt.walkC?])⟩
+    · rename_i s' l' evs heq; rw [heq]; exact ⟨rfl, by simp, Or.inr rfl, rfl⟩
+    · rename_i s' l' pp' evs hne heq; rw [heq]; exact ⟨rfl, by simp, Or.inl (by simp [OpSt.walkC?]), rfl⟩
   | dropc c p pp0 =>
     rw [hop] at h
     simp only [OpSt.walkC?, Option.some.injEq, Prod.mk.injEq] at h
@@ -57,12 +58,12 @@ theorem microStep_walkC_fwd (st : State) (t : Nat) (b : Bool) (a : Nat) (pp : PP
     refine ⟨c, ?_⟩
     simp only [microStep, hop]
     split
-    · rename_i s' l' evs heq; rw [heq]; split <;> exact ⟨rfl, by simp, Or.inr rfl⟩
-    · rename_i s' l' pp' evs hne heq; rw [heq]; exact ⟨rfl, by simp, Or.inl (by simp [OpSt.walkC?])⟩
+    · rename_i s' l' evs heq; rw [heq]; split <;> exact ⟨rfl, by simp, Or.inr rfl, rfl⟩
+    · rename_i s' l' pp' evs hne heq; rw [heq]; exact ⟨rfl, by simp, Or.inl (by simp [OpSt.walkC?]), rfl⟩
   | _ =>
     have hw : (st.th t).op.walk? = some (a, pp) := by rw [hop] at h ⊢; exact h
-    obtain ⟨c, h1, _, _, h4, h5⟩ := microStep_walk_fwd st t b a pp hw
-    exact ⟨c, h1, h4, h5.imp (fun x => OpSt.walkC_of_walk x) id⟩
+    obtain ⟨c, h1, h2, _, h4, h5⟩ := microStep_walk_fwd st t b a pp hw
+    exact ⟨c, h1, h4, h5.imp (fun x => OpSt.walkC_of_walk x) id, h2⟩
 
 /-- how a walk (of whatever kind) comes about and moves on -/
 theorem microStep_walkC (st : State) (t : Nat) (b : Bool) (a : Nat) (pp' : PP)
